@@ -786,7 +786,9 @@ class Installer:
                     wasm_source = os.path.splitext(fname)[0] + '.wasm'
                     if os.path.exists(wasm_source):
                         wasm_output = os.path.splitext(outname)[0] + '.wasm'
-                        file_copied = self.do_copyfile(wasm_source, wasm_output)
+                        if self.do_copyfile(wasm_source, wasm_output):
+                            self.did_install_something = True
+                            self.set_mode(wasm_output, install_mode, d.install_umask)
             elif os.path.isdir(fname):
                 fname = os.path.join(d.build_dir, fname.rstrip('/'))
                 outname = os.path.join(outdir, os.path.basename(fname))
